@@ -675,53 +675,8 @@ func c14enum(tier string, f func(idx int, g *c14graph) bool) {
 		idx++
 	}
 	for _, fam := range c14families(tier) {
-		n := fam.nodes
-		alpha := fam.prims + n // slot alphabet: prims then refs
-		g := &c14graph{kinds: make([]byte, n), slots: make([][]c14slot, n)}
-		// per node: kind (3) x slot vector of length 0..maxSlots
-		// enumerate with an explicit odometer over nodes
-		type nodeCfg struct {
-			kind  int
-			slots []int
-		}
-		var cfgs []nodeCfg
-		for k := 0; k < 3; k++ {
-			for l := 0; l <= fam.maxSlots; l++ {
-				radix := make([]int, l)
-				for i := range radix {
-					radix[i] = alpha
-				}
-				if l == 0 {
-					cfgs = append(cfgs, nodeCfg{k, nil})
-					continue
-				}
-				vh.Odometer(radix, func(d []int) bool {
-					cfgs = append(cfgs, nodeCfg{k, append([]int{}, d...)})
-					return true
-				})
-			}
-		}
-		radix := make([]int, n)
-		for i := range radix {
-			radix[i] = len(cfgs)
-		}
 		stop := false
-		vh.Odometer(radix, func(d []int) bool {
-			for i, c := range d {
-				g.kinds[i] = "ASM"[cfgs[c].kind]
-				sl := g.slots[i][:0]
-				for _, x := range cfgs[c].slots {
-					if x < fam.prims {
-						sl = append(sl, c14slot{ref: -1, prim: c14primSyms[x]})
-					} else {
-						sl = append(sl, c14slot{ref: x - fam.prims})
-					}
-				}
-				g.slots[i] = sl
-			}
-			if !c14canonical(g) {
-				return true
-			}
+		c14enumFamily(fam, func(g *c14graph) bool {
 			if !f(idx, g) {
 				stop = true
 				return false
@@ -733,6 +688,59 @@ func c14enum(tier string, f func(idx int, g *c14graph) bool) {
 			return
 		}
 	}
+}
+
+// c14enumFamily calls f for every canonical graph of one family (fixed order); f returns false to stop.
+// The graph object is reused between calls.
+func c14enumFamily(fam c14family, f func(g *c14graph) bool) {
+	n := fam.nodes
+	alpha := fam.prims + n // slot alphabet: prims then refs
+	g := &c14graph{kinds: make([]byte, n), slots: make([][]c14slot, n)}
+	// per node: kind (3) x slot vector of length 0..maxSlots
+	// enumerate with an explicit odometer over nodes
+	type nodeCfg struct {
+		kind  int
+		slots []int
+	}
+	var cfgs []nodeCfg
+	for k := 0; k < 3; k++ {
+		for l := 0; l <= fam.maxSlots; l++ {
+			radix := make([]int, l)
+			for i := range radix {
+				radix[i] = alpha
+			}
+			if l == 0 {
+				cfgs = append(cfgs, nodeCfg{k, nil})
+				continue
+			}
+			vh.Odometer(radix, func(d []int) bool {
+				cfgs = append(cfgs, nodeCfg{k, append([]int{}, d...)})
+				return true
+			})
+		}
+	}
+	radix := make([]int, n)
+	for i := range radix {
+		radix[i] = len(cfgs)
+	}
+	vh.Odometer(radix, func(d []int) bool {
+		for i, c := range d {
+			g.kinds[i] = "ASM"[cfgs[c].kind]
+			sl := g.slots[i][:0]
+			for _, x := range cfgs[c].slots {
+				if x < fam.prims {
+					sl = append(sl, c14slot{ref: -1, prim: c14primSyms[x]})
+				} else {
+					sl = append(sl, c14slot{ref: x - fam.prims})
+				}
+			}
+			g.slots[i] = sl
+		}
+		if !c14canonical(g) {
+			return true
+		}
+		return f(g)
+	})
 }
 
 // ---------------------------------------------------------------------------
@@ -1150,9 +1158,10 @@ func TestVerif_C14_Worker(t *testing.T) {
 // ---------------------------------------------------------------------------
 
 type c14case struct {
-	Desc  string `json:"desc,omitempty"`
-	Op    string `json:"op,omitempty"`
-	Bytes string `json:"bytes,omitempty"`
+	Desc  string   `json:"desc,omitempty"`
+	Op    string   `json:"op,omitempty"`
+	Bytes string   `json:"bytes,omitempty"`
+	Hist  *c14hist `json:"hist,omitempty"` // a case of the unit "history" (C14_history_test.go)
 }
 
 type c14exit struct {
@@ -1795,6 +1804,9 @@ func TestVerif_C14(t *testing.T) {
 	defer os.RemoveAll(dir)
 
 	var rc c14case
+	if r.ReplayCase(&rc) && rc.Hist != nil {
+		return // replayed by the unit "history"
+	}
 	if r.ReplayCase(&rc) && (rc.Desc != "" || rc.Bytes != "") {
 		if rc.Bytes != "" {
 			var data []byte
